@@ -337,3 +337,18 @@ SPECS["C06"] = dict(
         dict(id="shutdown", run="^TestC06Shutdown$", quick=dict(shards=6, checks=60, timeout=600, shrinktime=30), thorough=dict(shards=4, checks=3000, timeout=3400, shrinktime=300)),
     ]),
 )
+
+SPECS["C08"] = dict(
+    level="exploration",
+    technique="property-based testing of real UDP engine sessions (rapid): generated datagram sizes, sender concurrency and handler consumption/reply scripts against exact per-datagram oracles",
+    rule="a case is a UDP listener (udp4, udp6 when ::1 exists; 1..4 loops; read buffer 1..64 KiB; default and poll_opt builds) with 1..6 sender sockets, each sending 1..12 self-describing datagrams of sizes from {0,1,2,7,8,9,100,1023,1471-1473,cap/2,cap-1,cap,40000,65506,65507} "
+         "(windowed so that the kernel never drops; datagrams too short for a header one at a time), and a cyclic handler script per event: consume all/part/none/one byte, Write a reply (echo or generated payload), optionally SendTo a third socket (address in 4- or 16-byte form); "
+         "oracle: every OnTraffic offers exactly one sent datagram (length and bytes) with RemoteAddr = its sender, each datagram produces exactly one event, each Write exactly one reply datagram with exactly those bytes at exactly that sender, SendTo exactly one at the third socket, nobody receives anything else; "
+         "non-trivial = an event that consumed only part/none of its datagram was followed by another event on the same loop; distinct = distinct case",
+    assumptions=["loop-back UDP with a bounded in-flight volume does not drop datagrams (a missing reply within 3 s is therefore a lost event)", "payloads above the read-buffer size are outside the statement"],
+    overlay=["verifx/c08"] + FX_OVERLAY,
+    max_parallel=12,
+    jobs=[dict(name="c08-" + tagname(tg), pkg="./verifx/c08", tags=tg, tests=[
+        dict(id="datagrams", run="^TestC08Datagrams$", quick=dict(shards=6, checks=150, timeout=600, shrinktime=30), thorough=dict(shards=6, checks=4000, timeout=3400, shrinktime=300)),
+    ]) for tg in ["", "poll_opt"]],
+)
